@@ -517,13 +517,15 @@ func (ndb *nodeDB) deleteVersion(version int64, cache *rootkeyCache) error {
 		if err != nil {
 			return err
 		}
-		// ensure that the given version is not included in the root search
-		if err := ndb.deleteFromPruning(ndb.nodeKey(literalRootKey)); err != nil {
-			return err
-		}
-		// instead, the root should be reformatted to (version, 0)
+		// the root should be reformatted to (version, 0); queue the new copy first, so
+		// that a flush between the two operations never leaves the next version's
+		// root reference without a target
 		root.nodeKey.nonce = 0
 		if err := ndb.saveNodeFromPruning(root); err != nil {
+			return err
+		}
+		// ensure that the given version is not included in the root search
+		if err := ndb.deleteFromPruning(ndb.nodeKey(literalRootKey)); err != nil {
 			return err
 		}
 	}
